@@ -17,6 +17,7 @@ import random, os, json, math, itertools, multiprocessing as mp
 from fractions import Fraction as F
 from functools import reduce
 from ..common import Result, OUT, scratch, run_tlc, Machinery, tlc_error_excerpt, rat, quiet
+from ..common import fork_pool
 from .. import domains as D
 from ..calltrace import judge_calls
 
@@ -381,7 +382,7 @@ def run(tier, seed, replay=None):
                 res.violation("spec:MC_Generators:%s" % r["violated"], "the closed forms of Generators.tla violate %s" % r["violated"], {})
         inputs = corpus(tier, seed)
     res.evaluations = len(inputs)
-    with mp.get_context("fork").Pool(16) as pool:
+    with fork_pool(16) as pool:
         results = list(pool.imap_unordered(call_work, inputs, chunksize=8))
     traces = [t for ts, _ in results for t in ts]
     pyc = [x for _, ps in results for x in ps]
